@@ -553,7 +553,8 @@ func init() {
 	register(&vf.Check{
 		ID:        "C04",
 		Technique: "runtime monitor: per-timer reference model in lock-step with the calls + monotonic clock at Schedule* call and at callback entry + callback counts per schedule, over scripts where several timers and I/O objects expire/become ready in the same poll batch and handlers cancel/close/re-arm each other",
-		Rule: "cases = scripts of 10-40 steps over 2-10 timers and 0-2 TCP conns on one IO: ScheduleOnce(d) with d from {<=0, 1 ms, 3 ms, 5-40 ms} (many sharing the same expiry), ScheduleRepeating(1-6 ms), Cancel, Close, NewTimer (descriptor reuse), forced-deferred reads made ready, 'sleep past the expiry then poll' so that expired timers share a batch, handlers that cancel / close / cancel-and-re-arm (200 ms-5 s) another timer, re-schedule or cancel themselves; " +
+		Rule: "delays of a third of the schedules are not whole milliseconds (down to 1 us); handlers of repeating timers also cancel their series and schedule with a delay <= 0, or close their timer and create a new one before returning; a zero-delay callback need not have run when ScheduleOnce returns (it is then still due); " +
+			"cases = scripts of 10-40 steps over 2-10 timers and 0-2 TCP conns on one IO: ScheduleOnce(d) with d from {<=0, 1 ms, 3 ms, 5-40 ms} (many sharing the same expiry), ScheduleRepeating(1-6 ms), Cancel, Close, NewTimer (descriptor reuse), forced-deferred reads made ready, 'sleep past the expiry then poll' so that expired timers share a batch, handlers that cancel / close / cancel-and-re-arm (200 ms-5 s) another timer, re-schedule or cancel themselves; " +
 			"non-trivial = a handler acted on a timer that had expired but was not yet processed in its batch, or a batch fired >= 2 timers; distinct = (timers, such operations, such batches, firings)",
 		Assumptions: []string{
 			"lateness is never a violation; 'does run' is only checked after the harness itself observed the deadline pass; the loop is then polled for up to 3 s (a loaded virtual CPU can delay the timer interrupt by milliseconds)",
